@@ -873,7 +873,9 @@ def run(cx):
     cx.notes.append("exhaustive: all ordered pairs of the small states of one node kind, %d pairs (%s), all 8 merge option sets"
                     % (len(ecases), ", ".join("%s %d" % kv for kv in sizes.items())))
     cx.notes.append("pairs: %d random + %d exhaustive over %d schemas" % (len(cases), len(ecases), len(all_schemas) + 1))
-
+    # typed values (union, bits, binary, identityref, ...) loaded through XML / JSON / LYB: laws on the implementation only
+    from checks import duplaw
+    duplaw.run_duplaw(cx)
 
 def load_corpus(cx):
     d = os.path.join(paths.CORPUS, "merge")
